@@ -217,6 +217,12 @@ def ref_encode(layers):
             r = rest(4); return None if r is None else struct.pack("!HH", (L["pcp"] << 13) | (L["cfi"] << 12) | L["id"], L["eth_type"]) + r
         if k == "mpls":
             r = rest(4); return None if r is None else struct.pack("!I", (L["label"] << 12) | (L["tc"] << 9) | (L["s"] << 8) | L["ttl"]) + r
+        if k == "llc":
+            c = L["control"]; two = (c & 1) == 0 or (c & 3) == 2          # 802.2: I and S formats carry two control octets, U format one
+            snap = L.get("oui") is not None
+            if L["length"] != (4 if two else 3) + (5 if snap else 0): return None
+            h = bytes([L["dsap"], L["ssap"], c & 0xff]) + (bytes([c >> 8]) if two else b"") + ((bytes.fromhex(L["oui"]) + struct.pack("!H", L["eth_type"])) if snap else b"")
+            r = rest(len(h)); return None if r is None else h + r
         if k == "arp":
             if L["hwlen"] != 6 or L["protolen"] != 4: return None
             r = rest(28)
@@ -391,6 +397,7 @@ class C14(Check):
         self.checksum = self.m["packet_utils"].checksum
         self.pkgdir = os.path.join(common.REPO, "pox", "lib")
         self.variant = self.detect_variant()
+        self.shared_ok = self.probe_shared()
         # name-based anchors: resolved by common.AnchorCoverage with ast on every run (robust to line shifts)
         self.anchors = [("pox/lib/packet/%s.py" % mod, f) for mod, funcs in self.ANCHOR_FUNCS.items() for f in funcs]
 
@@ -423,6 +430,23 @@ class C14(Check):
         except Exception as e:
             self.variant_crosscheck = "source shape not recognised (%s)" % (str(e)[:120],)
         return v
+
+    def probe_shared(self):
+        """Proposed finding C14-K1 (fixes/C14-K1_pack_reasserts_prev.diff): a header object that is the payload of two containers at once
+        (a.payload = seg; b.payload = seg, a not given anything else) is packed through `a` with the pseudo header of `b`, because the
+        transport classes read the addresses from seg.prev and pack() does not re-point it.  Histories that pack through such a stale
+        container ("hist-shared") are generated when the tree under test packs them correctly (the repair is in) or the finding is
+        registered in known_findings.json; until then every run would report the same defect."""
+        try:
+            I, U = self.m["ipv4"].ipv4, self.m["udp"].udp
+            u = U(srcport=1, dstport=2, payload=b"abcd")
+            a = I(srcip=self.IPAddr("10.0.0.1"), dstip=self.IPAddr("10.0.0.2"), protocol=17, payload=u)
+            b = I(srcip=self.IPAddr("10.9.0.1"), dstip=self.IPAddr("10.9.0.2"), protocol=17, payload=u)
+            x = a.pack(); seg = x[20:]
+            if be(seg[6:8]) == (rfc1071(x[12:20] + bytes([0, 17]) + struct.pack("!H", len(seg)) + seg[:6] + b"\0\0" + seg[8:]) or 0xffff): return True
+        except Exception:
+            return True          # unknown behaviour: generate, let the oracle speak
+        return any(f.get("id") == "C14-K1" for f in common.Findings().open)
 
     def _variant_from_source(self):
         import ast
@@ -805,6 +829,8 @@ class C14(Check):
             return obs
         if case["kind"] == "seq":
             return self.run_seq(case, top)
+        if case["kind"] == "hist":
+            return self.run_hist(case)
         obs = self.run_stack(case["layers"], top)
         obs.pop("_q", None); obs.pop("_obj", None)
         return obs
@@ -874,6 +900,94 @@ class C14(Check):
         elif how[0] == "tcpopts": v = [self._tcpopt(x) for x in v]
         setattr(h, attr, v)
 
+    # ---- histories over the SAME header objects moved / shared between containers (HARDENING 1 + 2)
+    #   {"kind":"hist","stacks":[layers0, layers1, ...],"ops":[{"op":"attach","p":"s.i","c":"s.j"} | {"op":"attach","p":"s.i","bytes":hex} |
+    #    {"op":"pack","o":"s.i"} | {"op":"reparse","o":"s.i","as":k}]}
+    # "s.i" names the i-th header object of stack s as it was built (or, for a stack created by "reparse", as it came off the wire).
+    # What every pack() must emit is the frame of a FRESHLY BUILT stack with the same headers in the same arrangement; that arrangement is
+    # tracked here symbolically (hist_sim), with no reference to the library's prev/next pointers.
+    @staticmethod
+    def hist_sim(case):
+        """per op: None, or for pack/reparse {"layers": the equivalent fresh stack, "top": kind, "stale": some header in the chain was last
+        attached to a different container than the one it is packed through}"""
+        layer, child, lastp = {}, {}, {}
+        def add_stack(sidx, Ls):
+            hs = [L for L in Ls if L["k"] not in TERMINAL]
+            for i, L in enumerate(hs):
+                layer[(sidx, i)] = L
+                if i + 1 < len(hs): child[(sidx, i)] = ("obj", (sidx, i + 1)); lastp[(sidx, i + 1)] = (sidx, i)
+            t = Ls[-1]
+            child[(sidx, len(hs) - 1)] = ("bytes", t["data"]) if t["k"] == "bytes" else ("none",)
+        for sidx, Ls in enumerate(case["stacks"]): add_stack(sidx, Ls)
+        key = lambda x: tuple(int(v) for v in x.split("."))
+        def walk(o):
+            out, stale, seen = [], False, set()
+            while True:
+                if o in seen: return None          # a cycle: not a packet
+                seen.add(o); out.append(layer[o]); c = child[o]
+                if c[0] == "obj":
+                    if lastp.get(c[1]) != o: stale = True
+                    o = c[1]
+                else:
+                    out.append({"k": "bytes", "data": c[1]} if c[0] == "bytes" else {"k": "none"}); return out, stale
+        res = []
+        for op in case["ops"]:
+            if op["op"] == "attach":
+                pk = key(op["p"])
+                if "bytes" in op: child[pk] = ("bytes", op["bytes"])
+                else: child[pk] = ("obj", key(op["c"])); lastp[key(op["c"])] = pk
+                res.append(None)
+            else:
+                w = walk(key(op["o"]))
+                if w is None: res.append({"cycle": True}); continue
+                Ls, stale = w
+                res.append({"layers": C14.fixup([dict(L) for L in Ls]), "top": Ls[0]["k"], "stale": stale})
+                if op["op"] == "reparse": add_stack(op["as"], Ls)
+        return res
+
+    def run_hist(self, case):
+        tops = {"ethernet": self.m["ethernet"].ethernet, "ipv4": self.m["ipv4"].ipv4}
+        objs = {}
+        def register(sidx, o):
+            i = 0
+            while isinstance(o, self.packet_base): objs["%d.%d" % (sidx, i)] = o; o = o.next; i += 1
+        try:
+            for sidx, Ls in enumerate(case["stacks"]):
+                register(sidx, self.build([dict(L, _always=True) if L["k"] == "gre" else L for L in Ls]))
+        except Exception as e:
+            return {"exc": type(e).__name__, "stage": "build", "where": self._lib_exc(e)}
+        sim = self.hist_sim(case)
+        steps = []
+        for op, ex in zip(case["ops"], sim):
+            if op["op"] == "attach":
+                try:
+                    objs[op["p"]].payload = bytes.fromhex(op["bytes"]) if "bytes" in op else objs[op["c"]]
+                    steps.append(None)
+                except KeyError:
+                    steps.append({"abort": "no such object"}); break
+                except Exception as e:
+                    steps.append({"exc": type(e).__name__, "stage": "set", "where": self._lib_exc(e)}); break
+                continue
+            if op["o"] not in objs or "cycle" in ex: steps.append({"abort": "no such object"}); break
+            o = self.run_stack(ex["layers"], tops[ex["top"]], obj=objs[op["o"]])
+            q = o.pop("_q", None); o.pop("_obj", None)
+            if op["op"] == "reparse":
+                if q is None: steps.append(o); break
+                register(op["as"], q)
+            steps.append(o)
+        return {"steps": steps}
+
+    def hist_oracle(self, case, obs):
+        if "exc" in obs: return "constructor raises %s at %s" % (obs["exc"], obs["where"])
+        sim = self.hist_sim(case)
+        for i, (op, ex, o) in enumerate(zip(case["ops"], sim, obs["steps"])):
+            if o is None: continue
+            if "abort" in o: return None          # an earlier step already differed (reported there) or the case names no object
+            if op["op"] == "attach": return "setting a payload raises %s at %s" % (o["exc"], o["where"])
+            f = self.stack_oracle(ex["layers"], o)
+            if f is not None: return "[history step %d: %s of %s] %s" % (i, op["op"], op["o"], f)
+        return None
+
     def run_seq(self, case, top):
         obs = {}
         always = lambda Ls: None if Ls is None else [dict(L, _always=True) if L["k"] == "gre" else L for L in Ls]
@@ -925,6 +1039,7 @@ class C14(Check):
     def modelled(self, case):
         if case["kind"] == "cksum": return True
         ok = lambda Ls: all((L["k"] in MODELLED and not L.get("ext")) or L["k"] in TERMINAL for L in Ls)
+        if case["kind"] == "hist": return all(ok(Ls) for Ls in case["stacks"])
         return ok(case["layers"]) and (case.get("other") is None or ok(case["other"]))
 
     @staticmethod
@@ -949,16 +1064,17 @@ class C14(Check):
 
     @staticmethod
     def _noid(case):
+        if case["kind"] == "hist": return False
         return any(L.get("_noid") for key in ("layers", "other") for L in (case.get(key) or []))
 
-    def _stack_req(self, case, layers, built=None):
+    def _stack_req(self, case, layers, built=None, top=None):
         Ls = [self._mlayer(L) for L in layers]
         if built is not None:
             # an IPv4 header built without `id=` takes its identification from the class counter: the model is asked about the
             # identification the object was seen to have (HARDENING 1: the counter itself is state the model does not have)
             for L, bu in zip(Ls, built):
                 if L["k"] == "ipv4" and bu.get("k") == "ipv4": L["id"] = bu["id"]
-        return {"op": "stack", "top": case["top"], "cfg": self.variant, "layers": Ls}
+        return {"op": "stack", "top": top or case["top"], "cfg": self.variant, "layers": Ls}
 
     def model_request(self, case, obs=None):
         if case["kind"] == "cksum":
@@ -967,6 +1083,8 @@ class C14(Check):
         if self._noid(case) and obs is None: return None
         if case["kind"] == "mutparse":
             return {"op": "mutparse", "top": case["top"], "mut": case["mut"], "cfg": self.variant, "layers": [self._mlayer(L) for L in case["layers"]]}
+        if case["kind"] == "hist":
+            return {"op": "seq", "steps": [self._stack_req(case, ex["layers"], top=ex["top"]) for ex in self.hist_sim(case) if ex is not None and "layers" in ex]}
         if case["kind"] == "seq":
             bu = (lambda o: o.get("built") if obs is not None and o is not None else None)
             steps = [self._stack_req(case, case["layers"], bu(obs and obs.get("A1")))]
@@ -1002,6 +1120,8 @@ class C14(Check):
             if resp["spec"] != want:
                 return {"lean_spec": resp["spec"], "harness_spec": want}          # the two RFC 1071 transcriptions disagree
             return {"v": resp["code"]}
+        if case["kind"] == "hist":
+            return {"steps": [self._stack_view(x) for x in resp["steps"]]}
         if case["kind"] == "seq":
             st = resp["steps"]
             out = {"A1": self._stack_view(st[0], ("pack", "built")), "A2": self._stack_view(st[-1])}
@@ -1016,6 +1136,10 @@ class C14(Check):
             return {k: obs[k] for k in ("raw", "parsed", "repack", "repack_exc", "exc2") if k in obs}
         if case["kind"] == "cksum": return {"v": obs["v"]} if "v" in obs else {"exc": obs["exc"]}
         sv = lambda o: {"exc": o["exc"]} if "exc" in o else {k: o[k] for k in ("pack", "built", "parsed", "repack", "repack_exc", "exc2") if k in o}
+        if case["kind"] == "hist":
+            # the model answers every pack of the history; the implementation's list stops where a step could not be carried out
+            if "exc" in obs: return {"exc": obs["exc"]}
+            return {"steps": [sv(o) for o in obs["steps"] if o is not None and "abort" not in o]}
         if case["kind"] == "seq":
             if "A1" not in obs: return {"A1": {"exc": obs["exc"]}}
             out = {"A1": obs["A1"]}
@@ -1047,6 +1171,8 @@ class C14(Check):
             return None          # damaged input: C14 states nothing about it (C15 does); these cases only exercise the model's parsers
         if case["kind"] == "seq":
             return self.seq_oracle(case, obs)
+        if case["kind"] == "hist":
+            return self.hist_oracle(case, obs)
         return self.stack_oracle(case["layers"], obs)
 
     def seq_oracle(self, case, obs):
@@ -1127,6 +1253,15 @@ class C14(Check):
             if "exc" in obs: return "cksum:%s-length:%s" % ("odd" if len(case["data"]) // 2 % 2 else "even", obs["exc"])
             if obs.get("forms"): return "cksum:call-forms"
             return "cksum:value"
+        if case["kind"] == "hist":
+            m = re.match(r"\[history step (\d+): \w+ of \S+\] (.*)", failure, re.S)
+            if not m: return "hist:" + failure[:60]
+            i = int(m.group(1)); ex = self.hist_sim(case)[i]; o = obs["steps"][i]
+            inner = self.stack_key(ex["layers"], o, m.group(2))
+            fresh = self.run_stack(ex["layers"], {"ethernet": self.m["ethernet"].ethernet, "ipv4": self.m["ipv4"].ipv4}[ex["top"]])
+            ff = self.stack_oracle(ex["layers"], fresh)
+            if ff is not None and self.stack_key(ex["layers"], fresh, ff) == inner: return inner          # the same stack fails when built afresh
+            return ("hist-shared:" if ex["stale"] else "hist:") + inner
         if case["kind"] == "seq":
             m = re.match(r"\[(second object|pack after a field change|second pack)\] (.*)", failure, re.S)
             if m:
@@ -1172,10 +1307,15 @@ class C14(Check):
     def nontrivial(self, case, obs):
         if case["kind"] == "cksum": return len(case["data"]) >= 4
         if case["kind"] == "mutparse": return False
+        if case["kind"] == "hist": return True
         return sum(1 for L in case["layers"] if L["k"] not in TERMINAL) >= 2
 
     def shrink_candidates(self, case):
         if case["kind"] == "mutparse": return
+        if case["kind"] == "hist":
+            for j in range(len(case["ops"])):
+                yield dict(case, ops=case["ops"][:j] + case["ops"][j + 1:])
+            return
         if case["kind"] == "seq":
             if case.get("other") is not None: yield {k: v for k, v in case.items() if k not in ("other", "bfirst")}
             for j in range(len(case.get("delta", []))):
@@ -1343,7 +1483,7 @@ class C14(Check):
             snap = rng.random() < 0.5
             ctrl = rng.choice([3, 0xff, 0x03, 0x13, 0, 2, 0x7f01 & 0xfffe, 0x1234 & 0xfffc])
             two = (ctrl & 1) == 0 or (ctrl & 3) == 2
-            if two: ctrl |= rng.randint(0, 255) << 8
+            if two: ctrl = (ctrl & 0xff) | (rng.choice([0, 0, 0xff, 0x80, 1, rng.randint(0, 255)]) << 8)          # second octet 0: N(R)=0, P/F clear
             L = {"k": "llc", "dsap": 0xaa if snap else rng.choice([0x42, 0, 0xfe, 0xe0]), "ssap": 0xaa if snap else rng.choice([0x42, 0, 0xfe, 0xe0]), "control": ctrl,
                  "length": (4 if two else 3) + (5 if snap else 0), "oui": None, "eth_type": None}
             if snap:
@@ -1565,6 +1705,78 @@ class C14(Check):
             out.append(L)
         return self.fixup(out)
 
+    # ---- header objects moved / shared between containers
+    MOVABLE = {"udp", "tcp", "icmp", "icmpv6", "ipv4", "ipv6", "vlan", "echo", "echo6", "ethernet", "mpls", "arp", "gre", "vxlan", "igmp", "llc", "eapol"}
+    BYTES_OK = {"udp", "tcp", "icmp", "ipv4", "ipv6", "vlan", "echo", "echo6", "arp"}          # a 0..3-byte payload in their place stays opaque on re-parse
+
+    def variant_stack(self, rng, layers):
+        """a second stack of the same shape with other addresses / identifiers and its own payload"""
+        out = []
+        for L in layers:
+            L = dict(L); k = L["k"]
+            if k == "ethernet": L["src"] = self.rbytes(rng, 6).hex(); L["dst"] = self.rbytes(rng, 6).hex()
+            elif k == "ipv4": L["srcip"] = self.val(rng, 32); L["dstip"] = self.val(rng, 32); L["id"] = self.val(rng, 16); L["ttl"] = self.val(rng, 8)
+            elif k == "ipv6": L["srcip"] = self.rbytes(rng, 16).hex(); L["dstip"] = self.rbytes(rng, 16).hex(); L["flow"] = self.val(rng, 20)
+            elif k == "vlan": L["id"] = self.val(rng, 12)
+            elif k == "tcp": L["seq"] = self.val(rng, 32); L["win"] = self.val(rng, 16)
+            elif k in ("echo", "echo6"): L["seq"] = self.val(rng, 16)
+            elif k == "udp" and L["srcport"] not in UDP_SPECIAL and L["dstport"] not in UDP_SPECIAL: L["srcport"] = self.g_port(rng)
+            elif k == "bytes" and len(L["data"]) <= 86: L["data"] = self.rbytes(rng, len(L["data"]) // 2).hex()          # (quoted datagrams keep their length class)
+            out.append(L)
+        return self.fixup(out)
+
+    def g_hist(self, rng, template=None):
+        for _ in range(30):
+            base = self.g_modelled(rng) if rng.random() < 0.6 else self.g_other(rng)
+            A = base["layers"]
+            hs = [i for i, L in enumerate(A) if L["k"] not in TERMINAL]
+            # (not inside a datagram quoted by an ICMP error: whether the quote is parsed depends on its length)
+            cuts = [i for i in hs if i >= 1 and A[i]["k"] in self.MOVABLE and not any(A[j]["k"] in ("unreach", "time_exceeded", "unreach6", "toobig6", "timeex6") for j in range(i))
+                    and not any(L["k"] in ("dns", "lldp") or L.get("ext") for L in A)]
+            if A[0]["k"] != "ethernet" or not cuts: continue
+            t = A[-1]
+            if t["k"] == "bytes" and len(t["data"]) > 400: A = self.fixup(A[:-1] + [dict(t, data=t["data"][:2 * rng.randint(0, 64)])])
+            c = rng.choice(cuts); p = c - 1
+            B = self.variant_stack(rng, A)
+            small = self.rbytes(rng, rng.randint(0, 3)).hex()
+            byt = A[c]["k"] in self.BYTES_OK
+            repl = (lambda pid: {"op": "attach", "p": pid, "bytes": small}) if byt else None
+            # a gre header that came off the wire carries its checksum as a number, which is emitted as it stands (class docstring)
+            wire_gre = any(L["k"] == "gre" and L["csum"] for L in A[:c])
+            tpl = template or rng.choice(["move-replace", "move-replace", "alternate", "replace-reattach", "reparse-reuse", "swap", "random"])
+            ops = None
+            P = lambda sidx, i: "%d.%d" % (sidx, i)
+            if tpl == "move-replace":          # set as payload of A, then of B, then A is given something else
+                third = repl(P(0, p)) if (byt and rng.random() < 0.6) else {"op": "attach", "p": P(0, p), "c": P(1, c)}
+                ops = [{"op": "attach", "p": P(1, p), "c": P(0, c)}, third, {"op": "pack", "o": P(1, 0)}, {"op": "pack", "o": P(0, 0)}]
+            elif tpl == "alternate":           # the same object under two containers, packed alternately
+                ops = [{"op": "attach", "p": P(1, p), "c": P(0, c)}, {"op": "pack", "o": P(1, 0)}, {"op": "pack", "o": P(0, 0)}, {"op": "pack", "o": P(1, 0)}]
+            elif tpl == "replace-reattach" and byt:   # payload replaced, packed, the original re-attached
+                ops = [repl(P(0, p)), {"op": "pack", "o": P(0, 0)}, {"op": "attach", "p": P(0, p), "c": P(0, c)}, {"op": "pack", "o": P(0, 0)}]
+            elif tpl == "reparse-reuse" and not wire_gre:       # a header parsed off the wire re-used as the payload of a built header
+                ops = [{"op": "reparse", "o": P(0, 0), "as": 2}, {"op": "attach", "p": P(1, p), "c": P(2, c)}]
+                ops += [repl(P(2, p))] if byt else [{"op": "attach", "p": P(2, p), "c": P(1, c)}]
+                ops += [{"op": "pack", "o": P(1, 0)}, {"op": "pack", "o": P(2, 0)}]
+            elif tpl == "swap":
+                ops = [{"op": "attach", "p": P(0, p), "c": P(1, c)}, {"op": "attach", "p": P(1, p), "c": P(0, c)}, {"op": "pack", "o": P(0, 0)}, {"op": "pack", "o": P(1, 0)}]
+            elif tpl == "random":
+                ops = []
+                for _ in range(rng.randint(2, 5)):
+                    sp, sc = rng.randrange(2), rng.randrange(2)
+                    ops.append(repl(P(sp, p)) if (byt and rng.random() < 0.25) else {"op": "attach", "p": P(sp, p), "c": P(sc, c)})
+                    if rng.random() < 0.4: ops.append({"op": "pack", "o": P(rng.randrange(2), 0)})
+                ops += [{"op": "pack", "o": P(0, 0)}, {"op": "pack", "o": P(1, 0)}]
+            if ops is None: continue
+            case = {"kind": "hist", "top": "ethernet", "stacks": [A, B], "ops": ops}
+            if not self.shared_ok:
+                # drop the packs that go through a container whose payload object was moved elsewhere in the meantime (probe_shared)
+                sim = self.hist_sim(case)
+                case["ops"] = [op for op, ex in zip(ops, sim) if not (ex is not None and ex.get("stale"))]
+                if not any(op["op"] == "pack" for op in case["ops"]): continue
+                if any(ex is not None and ex.get("stale") for ex in self.hist_sim(case)): continue
+            return case
+        return self.g_seq(rng)
+
     def g_seq(self, rng):
         base = self.g_modelled(rng) if rng.random() < 0.55 else self.g_other(rng)
         LA = base["layers"]
@@ -1595,6 +1807,53 @@ class C14(Check):
         E, E6, I, I6, U, T = self.FE, dict(self.FE, type=0x86dd), self.FI, self.FI6, self.FU, self.FT
         return [[E, I(17), U, pl], [E, I(6), T(), pl], [E, I(1), {"k": "icmp", "type": 8, "code": 0, "csum": 0}, {"k": "echo", "id": 7, "seq": 9}, pl],
                 [E6, dict(I6, nh=17), U, pl], [E6, dict(I6, nh=6), T(), pl], [E6, I6, {"k": "icmpv6", "type": 128, "code": 0}, {"k": "echo6", "id": 7, "seq": 9}, pl]]
+
+    CK_POS = {"udp": 6, "tcp": 16, "icmp": 2, "icmpv6": 2}
+
+    def tune_checksum(self, layers, target):
+        """The same stack with the first 16-bit word of its payload chosen so that the CORRECT checksum of the innermost checksummed
+        transport header is exactly `target` (computed from this file's reference encoder and RFC 1071, no library code); None when the
+        stack is outside the encoder, has no 2-byte payload, or the value cannot occur (an all-zero sum needs all-zero words)."""
+        t = layers[-1]
+        if t["k"] != "bytes" or len(t["data"]) < 4: return None
+        Ls = self.fixup(layers[:-1] + [dict(t, data="0000" + t["data"][4:])])
+        try:
+            ref, marks = ref_encode(Ls)
+        except Exception:
+            return None
+        if ref is None: return None
+        inner = [(o, k) for o, k in marks if k in self.CK_POS]
+        if not inner: return None
+        off, kind = inner[-1]
+        ipm = [(o, k) for o, k in marks if k in ("ipv4", "ipv6") and o < off]
+        seg = ref[off:]
+        cp = self.CK_POS[kind]
+        if kind in ("udp", "tcp", "icmpv6"):
+            if not ipm: return None
+            io, ik = ipm[-1]
+            if ik == "ipv4": ph = ref[io + 12:io + 20] + bytes([0, ref[io + 9]]) + struct.pack("!H", len(seg))
+            else: ph = ref[io + 8:io + 40] + struct.pack("!IHBB", len(seg), 0, 0, {"udp": 17, "tcp": 6, "icmpv6": 58}[kind])
+        else: ph = b""
+        wpos = len(ref) - len(bytes.fromhex(t["data"])) - off          # the tunable word inside the segment
+        if wpos % 2: return None
+        region = ph + seg[:cp] + b"\0\0" + seg[cp + 2:]
+        base = (~rfc1071(region)) & 0xffff                           # folded sum with the tunable word = 0
+        want = (~target) & 0xffff                                    # folded sum that gives `target`
+        for x in ((want - base) % 0xffff, 0xffff if want == base else None):
+            if x is None: continue
+            r2 = region[:len(ph) + wpos] + struct.pack("!H", x) + region[len(ph) + wpos + 2:]
+            if rfc1071(r2) == target:
+                return self.fixup(layers[:-1] + [dict(t, data="%04x" % x + t["data"][4:])])
+        return None
+
+    def g_cktarget(self, rng):
+        """a random stack whose correct transport checksum is one of the values where special rules live (HARDENING 3):
+        0x0000 (UDP sends 0xffff instead, nobody else may), 0xffff, 0x0001, 0xfffe, 0x8000, 0x00ff, 0xff00"""
+        for _ in range(20):
+            c = self.g_modelled(rng) if rng.random() < 0.6 else self.g_other(rng)
+            L = self.tune_checksum(c["layers"], rng.choice([0, 0, 0, 0xffff, 1, 0xfffe, 0x8000, 0x00ff, 0xff00]))
+            if L is not None: return self._stack(L)
+        return self.g_modelled(rng)
 
     def g_big(self, rng):
         """datagrams at and around the 15/16-bit length boundaries (HARDENING 3)"""
@@ -1671,6 +1930,26 @@ class C14(Check):
         cases.append(S([E6, I6, {"k": "icmpv6", "type": 134, "code": 0}, {"k": "nd_ra", "hop_limit": 0, "managed": False, "other": False, "lifetime": 0, "reachable": 0, "retrans": 0,
                                                                       "opts": [{"t": 5, "mtu": 0}, {"t": 3, "plen": 0, "onlink": False, "auto": False, "valid": 0, "pref": 0, "prefix": "00" * 16}]}, {"k": "none"}]))
         cases.append(S([E6, I6, {"k": "icmpv6", "type": 2, "code": 0}, {"k": "toobig6", "mtu": 0}, B(b"")]))
+        # --- 3: checksum VALUES where special rules live: for every checksummed transport over both IP versions (TCP also with options, odd and
+        #     even payloads) the payload word is solved so that the correct checksum is exactly 0x0000 / 0xffff / 0x0001 / 0xfffe / ...
+        for fr_i in range(6):
+            for tail in (b"", b"x", b"xy", b"xyz" * 11):
+                frs = [self.l4_frames(B(b"\0\0" + tail))[fr_i]]
+                if fr_i in (1, 4):
+                    f0 = frs[0]; frs.append(f0[:2] + [T([{"t": 2, "v": 1460}, {"t": 1}, {"t": 3, "v": 7}, {"t": 99, "v": "0102"}])] + f0[3:])
+                for fr in frs:
+                    for target in (0x0000, 0xffff, 0x0001, 0xfffe, 0x8000, 0x7fff, 0x00ff, 0xff00):
+                        L = self.tune_checksum(fr, target)
+                        if L is not None: cases.append(S(L))
+        # --- 3: LLC control fields: two-octet forms whose second octet is zero / all ones, with and without SNAP, with and without payload
+        for ctrl in (0x0000, 0x0002, 0x0001, 0x0100, 0xff00, 0xff02, 0x0003, 0x00af, 0x0005, 0xff05):
+            two = (ctrl & 1) == 0 or (ctrl & 3) == 2
+            if not two: ctrl &= 0xff
+            for snap in (False, True):
+                for pl in (b"", b"a", b"abc"):
+                    L = {"k": "llc", "dsap": 0xaa if snap else 0x42, "ssap": 0xaa if snap else 0x42, "control": ctrl, "length": (4 if two else 3) + (5 if snap else 0),
+                         "oui": "00000c" if snap else None, "eth_type": 0x2000 if snap else None}
+                    cases.append(S([dict(E, type=L["length"] + len(pl)), L, B(pl)]))
         # --- 3: the Ethernet type / length boundary
         for t in (1500, 1535):
             cases.append(S([dict(E, type=t), {"k": "llc", "dsap": 0x42, "ssap": 0x42, "control": 3, "length": 3, "oui": None, "eth_type": None}, B(b"abc")]))
@@ -1768,6 +2047,21 @@ class C14(Check):
             both = [{"i": i, "f": f, "v": alt(how, L[f])} for i, L in enumerate(fr) for f, how in self.SETTABLE.get(L["k"], {}).items()
                     if how[0] in ("int", "ip4", "ip6", "mac") and not (L["k"] == "udp" and (L["srcport"] in UDP_SPECIAL or L["dstport"] in UDP_SPECIAL))]
             cases.append(Q(delta=both))
+        # --- 1 + 2: the same header objects moved / shared between containers, every template on every fixed frame
+        hr = __import__("random").Random(5)
+        # (g_hist draws its base stack from the generators: they are pointed at the fixed frames here)
+        for fr in frames + [[E, I(17), U, B(b"")], [E6, dict(I6, nh=17), U, B(b"abcde")], [E6, dict(I6, nh=6), T([{"t": 2, "v": 1460}]), B(b"ab")]]:
+            fr = self.fixup(fr)
+            if any(L["k"] in ("lldp", "dhcp") for L in fr): continue
+            save = (self.g_modelled, self.g_other)
+            self.g_modelled = self.g_other = (lambda rng, fr=fr: {"layers": fr})
+            try:
+                for tpl in ("move-replace", "alternate", "replace-reattach", "reparse-reuse", "swap", "random", "random"):
+                    for _ in range(3):
+                        c = self.g_hist(hr, tpl)
+                        if c.get("kind") == "hist": cases.append(c)
+            finally:
+                self.g_modelled, self.g_other = save
         return cases
 
     def g_cksum(self, rng):
@@ -1951,8 +2245,10 @@ class C14(Check):
             if r < 0.10: yield self.g_cksum(rng)
             elif r < 0.50: yield self.g_modelled(rng)
             elif r < 0.63: yield self.g_mut(rng)
-            elif r < 0.75: yield self.g_seq(rng)
+            elif r < 0.72: yield self.g_seq(rng)
+            elif r < 0.75: yield self.g_hist(rng)
             elif r < 0.753: yield self.g_big(rng)
+            elif r < 0.783: yield self.g_cktarget(rng)
             else: yield self.g_other(rng)
 
     def search_cases(self, rng, tier):
@@ -1960,7 +2256,7 @@ class C14(Check):
         for c in self.generate(rng, "thorough"): yield c
 
     def extra_evidence(self):
-        return {"malformed_stream_cases_outside_model": self.declined, "code_variant": self.variant, "code_variant_crosscheck": getattr(self, "variant_crosscheck", None), "technique": self.technique, "level_text": self.level_text, "level_note": self.level_note, "design_ref": self.design_ref}
+        return {"malformed_stream_cases_outside_model": self.declined, "code_variant": self.variant, "code_variant_crosscheck": getattr(self, "variant_crosscheck", None), "shared_component_histories": self.shared_ok, "technique": self.technique, "level_text": self.level_text, "level_note": self.level_note, "design_ref": self.design_ref}
 
 
 C14.theorems = ["Pox.C14." + t for t in (
